@@ -39,6 +39,18 @@ def migration_files() -> list[tuple[int, str]]:
     return out
 
 
+def released_files() -> list[tuple[int, str]]:
+    """the migration files as RELEASED (frozen copies under vmc/data/released_migrations, taken from the pinned tree): databases in
+    the field were created by these, whatever the files in the tree say today - an already-applied migration is never re-read"""
+    d = os.path.join(os.path.dirname(os.path.dirname(os.path.abspath(__file__))), "data", "released_migrations", "server")
+    out = []
+    for name in sorted(os.listdir(d)):
+        if name.endswith(".sql"):
+            text = open(os.path.join(d, name)).read()
+            out.append((parse_target_version(text) or 0, text))
+    return out
+
+
 def schema(conn: sqlite3.Connection) -> dict[str, Any]:
     rows = conn.execute("SELECT type, name, tbl_name, sql FROM sqlite_master WHERE name NOT LIKE 'sqlite_%' ORDER BY type, name").fetchall()
     norm = [(t, n, tb, re.sub(r"\s+", " ", s or "").strip()) for t, n, tb, s in rows]
@@ -59,7 +71,10 @@ def versions(conn: sqlite3.Connection) -> list[tuple[str, int]]:
 def build_start(path: str, start: tuple[str, int]) -> None:
     kind, k = start
     conn = sqlite3.connect(path)
-    files = migration_files()
+    # an earlier release built this database: from the files as they were released (for versions newer than the frozen set,
+    # from the tree's files)
+    rel = dict(released_files())
+    files = [(ver, rel.get(ver, text)) for ver, text in migration_files()]
     if kind == "fresh":
         conn.close()
         return
